@@ -133,6 +133,10 @@ class NeedDecision(Exception):
     pass
 
 
+class AbstractFault(Exception):
+    """the code divides by a quantity that is identically zero at the analysis point"""
+
+
 class _Return(Exception):
     def __init__(self, value):
         self.value = value
@@ -1192,7 +1196,7 @@ class Interp:
             return a * b
         if isinstance(op, ast.Div):
             if b.is_zero():
-                raise AnalysisError("division by zero in abstract evaluation")
+                raise AbstractFault("%s:%s: division by a quantity that is identically zero (%s mode)" % (self.cur_mod.name, getattr(node, "lineno", "?"), self.ctx))
             return a / b
         if isinstance(op, ast.Pow):
             return alg.power(a, b)
@@ -1502,6 +1506,10 @@ def explore(make_interp, entry, max_paths=512):
             stack.append(dec + [True])
         except _Raise as r:
             results.append(PathResult("raise", None, {}, it, raise_desc=r.desc))
+        except AbstractFault as f:
+            results.append(PathResult("fault", None, {}, it, raise_desc=str(f)))
+        except ZeroDivisionError as f:
+            results.append(PathResult("fault", None, {}, it, raise_desc="division by an identically zero quantity: %s" % f))
         except _Return as r:
             results.append(PathResult("return", r.value, getattr(it, "last_env", {}), it))
         if len(results) > max_paths:
